@@ -397,6 +397,8 @@ class LAGenericMacro(Macro):
 
         for coeff, dis_eq in zip(coeffs, dis_eq_step2): 
             lhs, rhs = dis_eq.args
+            if eval_const(coeff) == 0: # contributes nothing, in particular no strictness
+                continue
             if not dis_eq.is_equals(): # coeff should be absoluted
                 abs_coeff = hol_term.Real(abs(eval_const(coeff)))
             else:
@@ -406,6 +408,8 @@ class LAGenericMacro(Macro):
 
 
         # Step 4: compare the sum of all lhs and the sum of all rhs
+        if len(dis_eq_step3) == 0:
+            raise VeriTException("la_generic", "all coefficients are zero")
         diseq_lhs = [dis_eq.arg1 for dis_eq in dis_eq_step3]
         diseq_rhs = [dis_eq.arg for dis_eq in dis_eq_step3]
         lhs_sum = sum(diseq_lhs[1:], diseq_lhs[0])
